@@ -21,9 +21,10 @@ Mutation testing (scratch worktree /tmp/ixs-mut, VERIF_REPO, quick tier, seed 1;
                        chunk through                                     VIOLATION at a Recheck event (seed 1)
     adopt-when-cap-small  outputChunk: `else if len(m.buf) == 0 && cap(m.buf) < len(c) { m.buf = c }` (only
                        when the merge started with 1-8 slots and nothing grew the buffer since)
-                       first driver of round 2: seed 1 missed (detected in 2 of 8 seeds); after the
-                       "uniform" shaped scenarios (tiny first chunk, alternating large / small, quiet start)
-                       changed input in 9 of 10 seeds (1-10), thorough 5-6 scenarios per run (seeds 1-3)
+                       VIOLATION at a Recheck event (seed 1). The first driver of round 2 changed an
+                       input in only 2 of 8 seeds; with the "uniform" shaped scenarios (tiny first chunk,
+                       alternating large / small, quiet start) in 9 of 10 seeds (1-10) at quick size and
+                       in 5-6 scenarios of every thorough run (seeds 1-3): a quick run can miss it
     killed by the package tests (a.Check() after Merge): pop-slot-by-shift (copy(in[i], in[i][1:])),
     pop-chunk-by-shift (copy(m.in[i], m.in[i][1:]))
   killed by the package's own tests already (so not usable as evidence for this check; all of them are
